@@ -16,24 +16,19 @@ theorem servicesched_all_translated : Irismod.Gen.PureServiceSched.untranslated 
 /-- the translated definitions are exactly these, in source order (a new queue operation, guard or branch in the end
 blocker or in the two handlers shows up here) -/
 theorem servicesched_translated_pinned : Irismod.Gen.PureServiceSched.translated =
-    ["EndBlocker_call_DeleteRequestBatchExpiration_1_arg2(read_ctx_BlockHeight)",
-     "EndBlocker_call_AddNewRequestBatch_1_arg2(read_ctx_BlockHeight,requestContext_Timeout,requestContext_RepeatedFrequency)",
-     "EndBlocker_call_DeleteNewRequestBatch_1_arg2(read_ctx_BlockHeight)",
-     "EndBlocker_call_AddRequestBatchExpiration_1_arg2(read_ctx_BlockHeight,requestContext_Timeout)",
-     "EndBlocker_call_DeleteNewRequestBatch_2_arg2(read_ctx_BlockHeight)",
-     "EndBlocker_cond_1(requestContext_BatchState)",
+    ["EndBlocker_cond_1(requestContext_BatchState)",
+     "EndBlocker_call_DeleteRequestBatchExpiration_1_arg2(read_ctx_BlockHeight)",
      "EndBlocker_cond_2(requestContext_State)",
      "EndBlocker_cond_3(requestContext_State)",
      "EndBlocker_cond_4(requestContext_Repeated,requestContext_RepeatedTotal,requestContext_BatchCounter)",
+     "EndBlocker_call_AddNewRequestBatch_1_arg2(read_ctx_BlockHeight,requestContext_Timeout,requestContext_RepeatedFrequency)",
      "EndBlocker_cond_5(requestContext_State)",
+     "EndBlocker_call_DeleteNewRequestBatch_1_arg2(read_ctx_BlockHeight)",
      "EndBlocker_cond_6(read_len_providers,requestContext_ResponseThreshold)",
      "EndBlocker_cond_7(requestContext_State)",
+     "EndBlocker_call_AddRequestBatchExpiration_1_arg2(read_ctx_BlockHeight,requestContext_Timeout)",
+     "EndBlocker_call_DeleteNewRequestBatch_2_arg2(read_ctx_BlockHeight)",
      "EndBlocker_cond_8(read_len_str)",
-     "UpdateRequestContext_timeout_1(requestContext_Timeout)",
-     "UpdateRequestContext_repeatedFreq_1(requestContext_RepeatedFrequency)",
-     "UpdateRequestContext_requestContext_Timeout_1(timeout)",
-     "UpdateRequestContext_requestContext_RepeatedFrequency_1(repeatedFreq)",
-     "UpdateRequestContext_requestContext_RepeatedTotal_1(repeatedTotal)",
      "UpdateRequestContext_cond_1(read_len_requestContext_ModuleName)",
      "UpdateRequestContext_cond_2(requestContext_State)",
      "UpdateRequestContext_cond_3(read_len_requestContext_ModuleName)",
@@ -44,18 +39,23 @@ theorem servicesched_translated_pinned : Irismod.Gen.PureServiceSched.translated
      "UpdateRequestContext_cond_8(read_serviceFeeCap_Empty)",
      "UpdateRequestContext_guard_9(timeout,maxRequestTimeout)",
      "UpdateRequestContext_cond_10(timeout)",
+     "UpdateRequestContext_timeout_1(requestContext_Timeout)",
      "UpdateRequestContext_cond_11(repeatedFreq)",
+     "UpdateRequestContext_repeatedFreq_1(requestContext_RepeatedFrequency)",
      "UpdateRequestContext_guard_12(repeatedFreq,timeout)",
      "UpdateRequestContext_guard_13(repeatedTotal,requestContext_BatchCounter)",
      "UpdateRequestContext_cond_14(read_len_pds)",
      "UpdateRequestContext_cond_15(timeout)",
+     "UpdateRequestContext_requestContext_Timeout_1(timeout)",
      "UpdateRequestContext_cond_16(repeatedFreq)",
+     "UpdateRequestContext_requestContext_RepeatedFrequency_1(repeatedFreq)",
      "UpdateRequestContext_cond_17(repeatedTotal)",
-     "StartRequestContext_call_AddNewRequestBatch_1_arg2(read_ctx_BlockHeight)",
+     "UpdateRequestContext_requestContext_RepeatedTotal_1(repeatedTotal)",
      "StartRequestContext_cond_1(read_len_requestContext_ModuleName)",
      "StartRequestContext_cond_2(requestContext_State)",
      "StartRequestContext_guard_3(requestContext_Repeated,requestContext_RepeatedTotal,requestContext_BatchCounter)",
-     "StartRequestContext_cond_4(read_k_HasRequestBatchExpiration_ctx_requestContextID,read_k_HasNewRequestBatch_ctx_requestContextID)"] := rfl
+     "StartRequestContext_cond_4(read_k_HasRequestBatchExpiration_ctx_requestContextID,read_k_HasNewRequestBatch_ctx_requestContextID)",
+     "StartRequestContext_call_AddNewRequestBatch_1_arg2(read_ctx_BlockHeight)"] := rfl
 
 private theorem wrap_id (x : Int) (h : -9223372036854775808 ≤ x ∧ x < 9223372036854775808) : I64_wrap x = x := by
   unfold I64_wrap
